@@ -160,8 +160,9 @@ def run(ctx, rep, tier):
             explicit = next((b for k, b in v.items() if k.startswith("DFTransition.End in ") and k.endswith(".on_values")), None)
             tgt = [b for k, b in v.items() if k.endswith(".target in self.dfa.accepting_states")]
             n_goes_on += 1
-            rep.check(bool(calls) and fall is False and explicit is True and tgt == [False], "C17.d", ESB, f"re-dispatch only after a matched `end` pattern into a non-accepting state [{key}]",
-                      "end() re-dispatches (goto repeatswitch) on a path that is not 'a non-fallthrough move that lists End was taken and its target is not accepting': an Else standing for "
+            errh_g = next((b for k, b in v.items() if k.endswith(".error_handling")), None)
+            rep.check(bool(calls) and fall is False and explicit is True and errh_g is False and tgt == [False], "C17.d", ESB, f"re-dispatch only after a matched `end` pattern into a non-accepting state [{key}]",
+                      "end() re-dispatches (goto repeatswitch) on a path that is not 'a non-fallthrough, non-error move that lists End was taken and its target is not accepting': an Else standing for "
                       "end-of-input is a data pattern (a wait's self-loop would spin), a fall-through re-dispatches by itself, an accepting target answers DONE")
             continue
         if len(rets) != 1 or evs[-1].kind != "RET":
@@ -187,7 +188,7 @@ def run(ctx, rep, tier):
                 explicit = next((b for k, b in v.items() if k.startswith("DFTransition.End in ") and k.endswith(".on_values")), None)
                 if ok and rets[0].a == "FAIL":
                     # FAIL after a taken move is only right when no `end` pattern matched (the Else stood for end-of-input): otherwise the program goes on
-                    rep.check(explicit is False, "C17.d", ESB, f"FAIL after a taken end move only when End is not listed by it [{key}]",
+                    rep.check(explicit is False or errh is True, "C17.d", ESB, f"FAIL after a taken end move only when no `end` pattern matched (End not listed, or listed by an error path) [{key}]",
                               "after an `end` pattern matched, end() answers FAIL for a non-accepting target instead of going on from there: `\"a\"; end; yield Y; h();` "
                               "returns FAIL below -O3 (the statements after `end` are zero-width steps from the target)")
                 rep.check(ok, "C17.d", ESB, "after a taken non-fallthrough end move: DONE iff the target is accepting",
